@@ -300,6 +300,12 @@ func (d *lmtpDelivery) BodyNonAtomic(ctx context.Context, sc module.StatusCollec
 
 	rcptIndx := 0
 	err = d.conn.LMTPData(ctx, header, r, func(rcpt string, err *smtp.SMTPError) {
+		// Statuses are returned in the order of accepted RCPT commands, report
+		// them using addresses passed to AddRcpt, not the (possibly
+		// converted to ASCII) form sent to the server.
+		if rcptIndx < len(d.rcpts) {
+			rcpt = d.rcpts[rcptIndx]
+		}
 		if err == nil {
 			sc.SetStatus(rcpt, nil)
 		} else {
